@@ -1,8 +1,128 @@
 import JrsVerif.Common.J
+import JrsVerif.Model.Eval
 
 namespace JrsVerif.Drv.C01
-open Lean JrsVerif.J
+open Lean JrsVerif.J JrsVerif.Eval
 
-def handle (_op : String) (_j : Json) : Option Json := none
+def uop : String → Option UOp
+  | "+" => some .plus | "-" => some .minus | "~" => some .bitnot | "!" => some .not | _ => none
+def bop : String → Option BOp
+  | "*" => some .mul | "/" => some .div | "%" => some .mod | "+" => some .add | "-" => some .sub
+  | "<<" => some .shl | ">>" => some .shr | "<" => some .lt | ">" => some .gt | "<=" => some .le
+  | ">=" => some .ge | "&" => some .band | "|" => some .bor | "^" => some .bxor | "==" => some .eq
+  | "!=" => some .ne | "&&" => some .and | "||" => some .or | "in" => some .in_ | _ => none
+def vis : String → Vis
+  | "h" => .hidden | "u" => .unhide | _ => .normal
+
+def elems (j : Json) : Option (List Json) := match j with | .arr a => some a.toList | _ => none
+def strOf (j : Json) : Option String := j.getStr?.toOption
+
+def floatOfBits (s : String) : Float := Float.ofBits (UInt64.ofNat s.toNat!)
+
+mutual
+partial def pExpr (j : Json) : Option Expr := do
+  let a ← elems j
+  match a with
+  | [.str "null"] => some .null
+  | [.str "true"] => some .tru
+  | [.str "false"] => some .fals
+  | [.str "self"] => some .self
+  | [.str "super"] => some .super
+  | [.str "$"] => some .dollar
+  | [.str "str", .str s] => some (.str s)
+  | [.str "num", .str b] => some (.num (floatOfBits b))
+  | [.str "var", .str n] => some (.var n)
+  | [.str "arr", es] => some (.arr (← (← elems es).mapM pExpr))
+  | [.str "arrcomp", b, specs] => some (.arrComp (← pExpr b) (← (← elems specs).mapM pSpec))
+  | [.str "obj", b] => some (.obj (← pBody b))
+  | [.str "objext", e, b] => some (.objExt (← pExpr e) (← pBody b))
+  | [.str "unary", .str o, e] => some (.unary (← uop o) (← pExpr e))
+  | [.str "binary", .str o, x, y] => some (.binary (← bop o) (← pExpr x) (← pExpr y))
+  | [.str "assert", c, m, r] => some (.assertE (← pExpr c) (← pOpt m) (← pExpr r))
+  | [.str "local", bs, b] => some (.localE (← (← elems bs).mapM pBind) (← pExpr b))
+  | [.str "error", e] => some (.errorE (← pExpr e))
+  | [.str "apply", f, pos, named, .bool ts] =>
+    some (.apply (← pExpr f) (← (← elems pos).mapM pExpr)
+      (← (← elems named).mapM (fun p => do
+        match ← elems p with
+        | [.str n, e] => some (n, ← pExpr e)
+        | _ => none)) ts)
+  | [.str "index", e, parts] => some (.index (← pExpr e) (← (← elems parts).mapM pExpr))
+  | [.str "func", ps, b] => some (.func (← pParams ps) (← pExpr b))
+  | [.str "if", c, t, e] => some (.ifE (← pExpr c) (← pExpr t) (← pOpt e))
+  | [.str "slice", e, x, y, z] => some (.slice (← pExpr e) (← pOpt x) (← pOpt y) (← pOpt z))
+  | .str "unsupported" :: _ => some (.unsupported "unsupported construct")
+  | _ => none
+partial def pOpt (j : Json) : Option (Option Expr) :=
+  match j with
+  | .null => some none
+  | j => do some (some (← pExpr j))
+partial def pParams (j : Json) : Option (List Param) := do
+  (← elems j).mapM (fun p => do
+    match ← elems p with
+    | [.str n, d] => some (.mk n (← pOpt d))
+    | _ => none)
+partial def pBind (j : Json) : Option Bind := do
+  match ← elems j with
+  | [.str "bind", .str n, e] => some (.val n (← pExpr e))
+  | [.str "fn", .str n, ps, e] => some (.fn n (← pParams ps) (← pExpr e))
+  | _ => none
+partial def pSpec (j : Json) : Option CompSpec := do
+  match ← elems j with
+  | [.str "for", .str v, e] => some (.forS v (← pExpr e))
+  | [.str "if", e] => some (.ifS (← pExpr e))
+  | _ => none
+partial def pField (j : Json) : Option Field := do
+  match ← elems j with
+  | [nm, .bool plus, ps, .str v, value] =>
+    let name ← match ← elems nm with
+      | [.str "fixed", .str s] => some (FieldName.fixed s)
+      | [.str "dyn", e] => some (FieldName.dyn (← pExpr e))
+      | _ => none
+    let ps' ← match ps with
+      | .null => some none
+      | p => do some (some (← pParams p))
+    some (.mk name plus ps' (vis v) (← pExpr value))
+  | _ => none
+partial def pBody (j : Json) : Option ObjBody := do
+  match ← elems j with
+  | [.str "members", ls, asserts, fields] =>
+    some (.members (← (← elems ls).mapM pBind)
+      (← (← elems asserts).mapM (fun a => do
+        match ← elems a with
+        | [c, m] => some (← pExpr c, ← pOpt m)
+        | _ => none))
+      (← (← elems fields).mapM pField))
+  | [.str "objcomp", ls, f, specs] =>
+    some (.comp (← (← elems ls).mapM pBind) (← pField f) (← (← elems specs).mapM pSpec))
+  | _ => none
+end
+
+partial def jvJson : JV → Json
+  | .null => .null
+  | .bool b => .bool b
+  | .num f => obj [("$n", .str (toString f.toBits.toNat))]
+  | .str s => .str s
+  | .arr xs => .arr (xs.map jvJson).toArray
+  | .obj kvs => obj (kvs.map (fun (k, v) => (k, jvJson v)))
+
+def outcomeJson (o : Outcome) : Json :=
+  match o with
+  | .value j tr => obj [("ok", jvJson j), ("trace", ofStrs tr)]
+  | .error cls msg tr => obj [("err", .str cls), ("trace", ofStrs tr), ("_msg", .str msg)]
+  | .undecided why => obj [("skip", .bool true), ("_why", .str why)]
+
+def handle (op : String) (j : Json) : Option Json :=
+  match op with
+  | "eval.run" =>
+    match (do pExpr (← val? j "ast")) with
+    | none => some (obj [("skip", .bool true), ("_why", .str "ast outside the modelled fragment")])
+    | some e =>
+      let fuel := (nat? j "fuel").getD 400
+      let out := outcomeJson (evalProgram fuel e)
+      match out.getObjVal? "skip" with
+      | .ok _ => some out
+      | _ => some (obj [("spec", out)])
+  | _ => none
 
 end JrsVerif.Drv.C01
